@@ -1,2 +1,150 @@
-(* C09 — An undecodable set never corrupts its neighbours; truncation never fabricates (theorems added as proved). *)
-From VF Require Import Base.Prelude Model.Flow.
+(* C09 — An undecodable set never corrupts its neighbours; truncation never fabricates.
+   First half: a well-formed message (the specification side of C03 / C06) with ANY number of undecodable sets
+   inserted at ANY positions - reserved set id, template id unknown for this exporter at that point, data set
+   whose template uses an element missing from the information model; any body octets - decodes to the same
+   header, the same records in the same order and the same template cache as the message without them, and each
+   such set is passed over by exactly its declared length whatever follows it.
+   Second half: for ANY datagram at all (no well-formedness), cut at ANY octet: if the truncated datagram still
+   yields a message, the complete datagram is either rejected as a whole or yields the same header and a record
+   list of which the truncated one is a prefix.  For any template cache implementation, information model and
+   header layout. *)
+From VF Require Import Base.Prelude Model.Reader Model.Layout Model.JsonPieces Model.Flow Model.Cache Model.Ipfix Model.Nf9
+  Spec.FlowWire Proofs.LayoutProofs Proofs.IpfixFidelity Proofs.Nf9Fidelity Proofs.SkipSets Proofs.SkipSets9
+  Proofs.Truncation Proofs.Truncation9.
+From VF Require Gen.Layouts.
+
+(* `_partial`: well-formedness of the surrounding message is that of C03/C06 (sets_ok), which includes the
+   implementation's padding rule tail_ok; data sets ending in a record of <= 4 octets are the recorded finding
+   of C03/C06 and are not covered here. *)
+Theorem C09_ipfix_skip_undecodable_partial : forall (im : infomodel) (a : bytes) (m : amap) hvals xs,
+  fits Gen.Layouts.ipfix_header_layout hvals ->
+  field_get "Version" (named_fields Gen.Layouts.ipfix_header_layout hvals) = 10 ->
+  xsets_ok im a m xs ->
+  exists nf,
+    ipfix_decode am_ops im Gen.Layouts.ipfix_header_layout m a
+      (enc_layout Gen.Layouts.ipfix_header_layout hvals ++ flat_map (enc_xset im) xs)
+    = Ok (final_map a m (goods xs),
+          DMsg {| i_agent := a; i_header := named_fields Gen.Layouts.ipfix_header_layout hvals;
+                  i_sets := expected_sets im (goods xs) |} nf)
+    /\ ipfix_decode am_ops im Gen.Layouts.ipfix_header_layout m a
+      (enc_layout Gen.Layouts.ipfix_header_layout hvals ++ flat_map (enc_set im) (goods xs))
+    = Ok (final_map a m (goods xs),
+          DMsg {| i_agent := a; i_header := named_fields Gen.Layouts.ipfix_header_layout hvals;
+                  i_sets := expected_sets im (goods xs) |} 0).
+Proof. intros im a m hvals xs. apply ipfix_skip_undecodable. Qed.
+Print Assumptions C09_ipfix_skip_undecodable_partial.
+
+Theorem C09_nf9_skip_undecodable_partial : forall (im : infomodel) (a : bytes) (m : amap) hvals xs,
+  fits Gen.Layouts.nf9_header_layout hvals ->
+  field_get "Version" (named9 Gen.Layouts.nf9_header_layout hvals) = 9 ->
+  xsets_ok9 im a m xs ->
+  exists nf,
+    nf9_decode am_ops im Gen.Layouts.nf9_header_layout m a
+      (enc_layout Gen.Layouts.nf9_header_layout hvals ++ flat_map enc_xset9 xs)
+    = Ok (final_map9 a m (goods9 xs),
+          DMsg {| n9_agent := a; n9_header := named9 Gen.Layouts.nf9_header_layout hvals;
+                  n9_sets := expected_sets9 im (goods9 xs) |} nf)
+    /\ nf9_decode am_ops im Gen.Layouts.nf9_header_layout m a
+      (enc_layout Gen.Layouts.nf9_header_layout hvals ++ flat_map enc_set9 (goods9 xs))
+    = Ok (final_map9 a m (goods9 xs),
+          DMsg {| n9_agent := a; n9_header := named9 Gen.Layouts.nf9_header_layout hvals;
+                  n9_sets := expected_sets9 im (goods9 xs) |} 0).
+Proof. intros im a m hvals xs. apply nf9_skip_undecodable. Qed.
+Print Assumptions C09_nf9_skip_undecodable_partial.
+
+(* skipped by its declared length: whatever octets follow, whatever was decoded before, the cache untouched *)
+Theorem C09_ipfix_undecodable_set_skipped : forall (im : infomodel) (a : bytes) (m : amap) sid body rest cnt ds,
+  bad_ok im a m sid body ->
+  exists e, decode_set am_ops im a m {| data := enc_bad sid body ++ rest; count := cnt |} ds
+            = Ok (m, Ipfix.SCont {| data := rest; count := cnt + len (enc_bad sid body) |} ds e).
+Proof. exact bad_set_skipped. Qed.
+Print Assumptions C09_ipfix_undecodable_set_skipped.
+
+Theorem C09_nf9_undecodable_set_skipped : forall (im : infomodel) (a : bytes) (m : amap) sid body rest cnt ds,
+  bad_ok9 im a m sid body ->
+  exists e, decode_set9 am_ops im a m {| data := enc_bad9 sid body ++ rest; count := cnt |} ds
+            = Ok (m, Nf9.SCont {| data := rest; count := cnt + len (enc_bad9 sid body) |} ds e).
+Proof. exact bad_set9_skipped. Qed.
+Print Assumptions C09_nf9_undecodable_set_skipped.
+
+(* truncation: any cache implementation, any datagram p, any cut n *)
+Theorem C09_ipfix_truncation_prefix : forall (C : Type) (ops : cache_ops C) im hl (c : C) (a p : bytes) (n : nat) c1 m1 nf1 res,
+  ipfix_decode ops im hl c a (firstn n p) = Ok (c1, DMsg m1 nf1) ->
+  ipfix_decode ops im hl c a p = Ok res ->
+  snd res = DFail \/
+  exists m2 nf2, snd res = DMsg m2 nf2 /\ i_agent m2 = i_agent m1 /\ i_header m2 = i_header m1 /\ is_prefix (i_sets m1) (i_sets m2).
+Proof. intros C ops im hl. apply ipfix_truncation_prefix. Qed.
+Print Assumptions C09_ipfix_truncation_prefix.
+
+Theorem C09_nf9_truncation_prefix : forall (C : Type) (ops : cache_ops C) im hl (c : C) (a p : bytes) (n : nat) c1 m1 nf1 res,
+  nf9_decode ops im hl c a (firstn n p) = Ok (c1, DMsg m1 nf1) ->
+  nf9_decode ops im hl c a p = Ok res ->
+  snd res = DFail \/
+  exists m2 nf2, snd res = DMsg m2 nf2 /\ n9_agent m2 = n9_agent m1 /\ n9_header m2 = n9_header m1 /\ is_prefix (n9_sets m1) (n9_sets m2).
+Proof. intros C ops im hl. apply nf9_truncation_prefix. Qed.
+Print Assumptions C09_nf9_truncation_prefix.
+
+(* ---- non-vacuity ---- *)
+Definition ex_im : infomodel := fun pen id =>
+  if (pen =? 0) && (id =? 8) then Some (8, T_Ipv4Address) else if (pen =? 0) && (id =? 1) then Some (1, T_Uint64) else None.
+Definition ex_tpl : wtemplate := {| wt_opts := false; wt_id := 256; wt_scope := [];
+  wt_fields := [{| ws_id := 8; ws_len := 4; ws_ent := None |}; {| ws_id := 1; ws_len := 8; ws_ent := None |}] |}.
+(* a template over an element the model lacks (id 999), announced so that data for it is undecodable *)
+Definition ex_tpl_missing : wtemplate := {| wt_opts := false; wt_id := 300; wt_scope := [];
+  wt_fields := [{| ws_id := 8; ws_len := 4; ws_ent := None |}; {| ws_id := 999; ws_len := 4; ws_ent := None |}] |}.
+Definition ex_rec (x : Z) : list wfield :=
+  [{| w_spec := to_fspec {| ws_id := 8; ws_len := 4; ws_ent := None |}; w_content := [10; 0; 0; x]; w_long := false |};
+   {| w_spec := to_fspec {| ws_id := 1; ws_len := 8; ws_ent := None |}; w_content := [0; 0; 0; 0; 0; 0; 3; x]; w_long := false |}].
+Definition ex_done : list wfield :=
+  [{| w_spec := to_fspec {| ws_id := 8; ws_len := 4; ws_ent := None |}; w_content := [10; 9; 9; 9]; w_long := false |}].
+Definition ex_xs : list xset :=
+  [XBad 5000 [1; 2; 3; 4; 5; 6; 7; 8];                                    (* unknown template *)
+   XGood (WTpl false [ex_tpl; ex_tpl_missing] []);
+   XBad 100 [9; 9; 9; 9; 9];                                              (* reserved id *)
+   XGood (WData 256 [ex_rec 1; ex_rec 2] []);
+   XBad 300 (enc_record ex_im ex_done ++ [7; 7; 7; 7; 7; 7; 7; 7]);       (* element missing from the model *)
+   XGood (WData 256 [ex_rec 3] [0; 0]);
+   XBad 4 []].
+Example C09_skip_instance : xsets_ok ex_im [10; 0; 0; 1] [] ex_xs.
+Proof.
+  assert (Hm : forall x, rec_matches (template_of ex_tpl) (ex_rec x)).
+  { intros x. exists [], (ex_rec x). repeat split; try reflexivity. discriminate. }
+  assert (Hf : forall x, Forall (wfield_ok ex_im) (ex_rec x)).
+  { intros x. repeat constructor; cbn; try (eexists; eexists; reflexivity). }
+  cbn [xsets_ok ex_xs]. split; [|split; [|split; [|split; [|split; [|split; [|split]]]]]]; try exact I.
+  - split; [cbn; lia|]. right; left. split; [lia|reflexivity].
+  - cbn [sets_ok]. repeat split; try discriminate; try (cbn; lia); repeat constructor; cbn; try lia; try discriminate; intros; discriminate.
+  - split; [cbn; lia|]. left; lia.
+  - cbn [sets_ok]. split; [|split; [|split; [|split; [|split; [|split; [|split]]]]]]; try exact I.
+    + exists (template_of ex_tpl). split; [lia|]. split; [vm_compute; reflexivity|]. repeat constructor; apply Hm.
+    + repeat constructor; cbn; try (eexists; eexists; reflexivity).
+    + repeat constructor; vm_compute; reflexivity.
+    + discriminate.
+    + cbn; lia.
+    + vm_compute. intros H; discriminate H.
+    + cbn; lia.
+  - split; [vm_compute; reflexivity|]. right; right. split; [lia|].
+    exists (template_of ex_tpl_missing), ex_done, [7; 7; 7; 7; 7; 7; 7; 7]. split; [vm_compute; reflexivity|]. split; [|reflexivity].
+    split; [repeat constructor; cbn; try (eexists; eexists; reflexivity)|].
+    right. exists [], ex_done, (to_fspec {| ws_id := 999; ws_len := 4; ws_ent := None |}), []. repeat split; reflexivity.
+  - cbn [sets_ok]. split; [|split; [|split; [|split; [|split; [|split; [|split]]]]]]; try exact I.
+    + exists (template_of ex_tpl). split; [lia|]. split; [vm_compute; reflexivity|]. repeat constructor; apply Hm.
+    + repeat constructor; cbn; try (eexists; eexists; reflexivity).
+    + repeat constructor; vm_compute; reflexivity.
+    + discriminate.
+    + cbn; lia.
+    + vm_compute. intros H; discriminate H.
+    + cbn; lia.
+  - split; [cbn; lia|]. left; lia.
+Qed.
+
+(* the truncation theorem's premise is met by a strict truncation that still yields records: cutting the message
+   of C09_skip_instance after its first data set gives 2 of the 3 records *)
+Definition ex_msg : bytes := enc_layout Gen.Layouts.ipfix_header_layout [10; 200; 1; 2; 3] ++ flat_map (enc_xset ex_im) ex_xs.
+Example C09_truncation_instance :
+  match ipfix_decode am_ops ex_im Gen.Layouts.ipfix_header_layout [] [10; 0; 0; 1] (firstn 110 ex_msg),
+        ipfix_decode am_ops ex_im Gen.Layouts.ipfix_header_layout [] [10; 0; 0; 1] ex_msg with
+  | Ok (_, DMsg m1 _), Ok (_, DMsg m2 _) => length (i_sets m1) = 2%nat /\ length (i_sets m2) = 3%nat /\ firstn 2 (i_sets m2) = i_sets m1
+  | _, _ => False
+  end.
+Proof. vm_compute. repeat split. Qed.
